@@ -30,8 +30,10 @@ From Coq Require Import List Arith Bool.
 From VF Require Import Lifecycle.Pool.
 Import ListNotations.
 
-Inductive hop := HStart | HStop.
-Inductive hpc := HIdle | H_chk | H_spawn | H_setrun | H_rel
+(* HStartF: a start() whose _ThreadingHTTPServer constructor fails to bind (port taken by a foreign socket):
+   nothing is assigned, the lock is released by the with block, the call raises *)
+Inductive hop := HStart | HStop | HStartF.
+Inductive hpc := HIdle | H_chk | H_chkF | H_spawn | H_setrun | H_rel
                | P_chk | P_wait | P_close | P_join | P_clear | P_reset | P_rel.
 Inductive hmpc := HMNone | HM_clear | HM_loop | HM_fin | HM_ret | HMEnded.
 Inductive hsk := HSNone | HSOpen | HSClosed.
@@ -75,11 +77,13 @@ Section V.
         | None => None
         | Some HStart => if hlock_free g then Some (hset_lock g LCaller, H_chk, true) else None
         | Some HStop => if hlock_free g then Some (hset_lock g LCaller, P_chk, true) else None
+        | Some HStartF => if hlock_free g then Some (hset_lock g LCaller, H_chkF, true) else None
         end
     | H_chk =>
         if hrunning g then Some (hset_lock g LFree, HIdle, false)
         else if hsock_open (hsock g) then Some (hset_lock (hset_err g) LFree, HIdle, false)   (* EADDRINUSE *)
         else Some (hset_isdown (hset_sreq (hset_sock g HSOpen) false) false, H_spawn, false)
+    | H_chkF => Some (hset_lock g LFree, HIdle, false)      (* already running: return; else the bind raises *)
     | H_spawn =>
         let g1 := if hmt_live (hmt g) then hset_err g else g in
         Some (hset_mt (hset_mref g1 true) HM_clear, H_setrun, false)
